@@ -258,7 +258,7 @@ def u_ctx(ctx, u):
     ctx.check(len(pool) == 32, 'harness:unexpected-precompute-draws', n=len(pool))
     zr = R.compute_z(pk, ident)
     used = set()
-    nfin = 36 if u['_i'] % 2 == 0 else 5
+    nfin = 44 if u['_i'] % 2 == 0 else 5     # 44 finishes: 6 fixed-length, 38 from the table (> 32: one refill)
     for j in range(nfin):
         msg = _rand_msg(rng)
         if j:
@@ -331,8 +331,8 @@ def _reject_all(ctx, key, pub_only, ident, msg, e, der, cls, ref_accepts, **deta
 def u_bitflip(ctx, u):
     rng = ctx.rng
     d, pk, key, pub_only = _mk_case(ctx)
-    ident = _rand_id(rng)[:64]
-    msg = rng.randbytes(rng.choice([1, 8, 20, 33]))
+    ident = _rand_id(rng)[:rng.choice([1, 8, 16, 17, 24])]
+    msg = rng.randbytes(rng.choice([1, 4, 8, 12]))
     z = R.compute_z(pk, ident)
     e = R.sm3(z + msg)
     k = rng.randrange(1, N)
